@@ -258,6 +258,8 @@ def run(tier, seed, agg):
     cases += [dict(kind=k, payload=p, steps=list(s), end=7, nmax=2 if q else 4, via="slot") for k in KINDS for p in PAYLOADS for s in ((1, 1), (1, 2), (3, 2))]
     cases += [dict(kind=k, payload=p, steps=list(s), end=8, nmax=3 if q else 5, via="composition", order=o) for k in DELAYED for p in PAYLOADS for s in ((1, 1), (1, 2), (2, 1), (1, 3), (3, 2)) for o in ("PC", "CP")]
     cases += [dict(kind=k, payload="grid", steps=list(s), end=7, nmax=3, via="composition", order="CP") for k in KINDS for s in ((1, 1), (1, 2), (2, 3))]
+    # long runs: dozens of publications and spill files (counters, name collisions, accumulated memory accounting)
+    cases += [dict(kind=k, payload=p, steps=list(s), end=45, limits=[0, 47, 48, 100, 500], via="composition") for k in KINDS + ["Linear+D"] for p in ("grid", "masked") for s in ((1, 1), (1, 3), (2, 5), (1, 11))]
     k = seed % len(cases)
     cases = cases[k:] + cases[:k]
     os.makedirs(WORK, exist_ok=True)
